@@ -14,6 +14,7 @@ import DuneVerif.Proofs.C12Opt
 import DuneVerif.Proofs.C12R2
 import DuneVerif.Proofs.C12Named
 import DuneVerif.Proofs.C12Float
+import DuneVerif.Proofs.C12Src
 
 namespace DV.C12
 
@@ -584,5 +585,186 @@ theorem bool_words (s : Str) :
 
 example : parseBool "YeS".toList = some true ∧ parseBool "FALSE".toList = some false ∧ parseBool "2".toList = some true ∧
     parseBool "0".toList = some false ∧ parseBool " yes".toList = none := by decide
+
+/-- **bool_array_spec** (round four).  `get<std::array<bool,n>>` reads its items with `operator>>(bool&)` (no
+    `boolalpha`), i.e. not with the word rules of `Parser<bool>`: it succeeds iff the text is exactly `n` integer
+    literals (of a `long`) each with the value 0 or 1, followed by nothing but blanks, and returns `v = 1` for each;
+    `yes`, `true`, `2`, too few or too many items are the RangeError -/
+theorem bool_array_spec (n : Nat) (s : Str) :
+    (∀ bs, parseRange extractBool01 n s = some bs ↔
+      ∃ vs, vs.length = n ∧ IntItems tLong s vs ∧ (∀ v ∈ vs, v = 0 ∨ v = 1) ∧ bs = vs.map (· == 1)) ∧
+    ((¬ ∃ vs, vs.length = n ∧ IntItems tLong s vs ∧ ∀ v ∈ vs, v = 0 ∨ v = 1) → parseRange extractBool01 n s = none) := by
+  have key : ∀ bs, parseRange extractBool01 n s = some bs ↔
+      ∃ vs, vs.length = n ∧ IntItems tLong s vs ∧ (∀ v ∈ vs, v = 0 ∨ v = 1) ∧ bs = vs.map (· == 1) := by
+    intro bs
+    rw [parseRange_bool01_iff]
+    constructor
+    · rintro ⟨vs, h, hall, rfl⟩
+      obtain ⟨hl, hi⟩ := (parseRange_int_iff tLong n s vs).mp h
+      exact ⟨vs, hl, hi, hall, rfl⟩
+    · rintro ⟨vs, hl, hi, hall, rfl⟩
+      exact ⟨vs, (parseRange_int_iff tLong n s vs).mpr ⟨hl, hi⟩, hall, rfl⟩
+  refine ⟨key, fun hno => ?_⟩
+  cases hp : parseRange extractBool01 n s with
+  | none => rfl
+  | some bs =>
+    obtain ⟨vs, hl, hi, hall, _⟩ := (key bs).mp hp
+    exact absurd ⟨vs, hl, hi, hall⟩ hno
+
+example : parseRange extractBool01 3 " 1 0\t+1 ".toList = some [true, false, true] := by decide
+example : parseRange extractBool01 2 "1 yes".toList = none ∧ parseRange extractBool01 2 "1 2".toList = none ∧
+    parseRange extractBool01 2 "1".toList = none ∧ parseRange extractBool01 1 "1 0".toList = none ∧
+    parseRange extractBool01 1 "-0".toList = some [false] := by decide
+
+/-! ## tie to the source: the values `tools/translators/tr_c12.py` re-reads from parametertree.{hh,cc} and
+parametertreeparser.cc on every run (`DuneVerif/Gen/C12.lean`) are the ones the model is written with -/
+
+/-- **src_blank_sets.**  All six blank-set literals of the code (both `ltrim`/`rtrim` copies and the two searches of
+    `split`) denote, as sets, the model's `isWs`; `ltrim` keeps from the first non-blank, `rtrim` up to and including
+    the last one -/
+theorem src_blank_sets :
+    (∀ c, isWs c = inSet Gen.blankParserLtrim c) ∧ (∀ c, isWs c = inSet Gen.blankParserRtrim c) ∧
+    (∀ c, isWs c = inSet Gen.blankTreeLtrim c) ∧ (∀ c, isWs c = inSet Gen.blankTreeRtrim c) ∧
+    (∀ c, isWs c = inSet Gen.blankSplitSkip c) ∧ (∀ c, isWs c = inSet Gen.blankSplitStop c) ∧
+    Gen.blankParserLtrimStart = 0 ∧ Gen.blankTreeLtrimStart = 0 ∧ Gen.blankParserRtrimLen = 1 ∧ Gen.blankTreeRtrimLen = 1 ∧
+    (∀ s, ltrim s = s.dropWhile (inSet Gen.blankParserLtrim)) ∧ (∀ s, parseString s = (rtrim s).dropWhile (inSet Gen.blankTreeLtrim)) := by
+  have h1 : Gen.blankParserLtrim = wsList := by decide
+  have h2 : Gen.blankParserRtrim = wsList := by decide
+  have h3 : Gen.blankTreeLtrim = wsList := by decide
+  have h4 : Gen.blankTreeRtrim = wsList := by decide
+  have h5 : Gen.blankSplitSkip = wsList := by decide
+  have h6 : Gen.blankSplitStop = wsList := by decide
+  have hf : isWs = inSet wsList := funext isWs_eq_inSet
+  refine ⟨?_, ?_, ?_, ?_, ?_, ?_, by decide, by decide, by decide, by decide, ?_, ?_⟩
+  · rw [h1]; exact isWs_eq_inSet
+  · rw [h2]; exact isWs_eq_inSet
+  · rw [h3]; exact isWs_eq_inSet
+  · rw [h4]; exact isWs_eq_inSet
+  · rw [h5]; exact isWs_eq_inSet
+  · rw [h6]; exact isWs_eq_inSet
+  · intro s; rw [h1, ← hf]; rfl
+  · intro s; rw [h3, ← hf]; rfl
+
+example : ltrim " \t\r\n a b ".toList = "a b ".toList ∧ inSet Gen.blankTreeRtrim '\r' = true ∧ inSet Gen.blankSplitStop 'x' = false := by
+  decide
+
+/-- **src_path_separator.**  `hasKey`, `hasSub`, both `sub` and both `operator[]` split the key at the same
+    character, the first component ends where it was found and the remainder starts one character later; and that is
+    how the model's component list `comps` is built, step by step -/
+theorem src_path_separator :
+    Gen.pathSplit.map (·.1) = ["hasKey", "hasSub", "subMut", "subConst", "indexMut", "indexConst"] ∧
+    (∀ e ∈ Gen.pathSplit, e.2 = ('.', 0, 1)) ∧
+    (∀ e ∈ Gen.pathSplit, ∀ key a b, splitFirst e.2.1 key = some (a, b) → comps key = a :: comps b) ∧
+    (∀ e ∈ Gen.pathSplit, ∀ key, splitFirst e.2.1 key = none → comps key = [key]) := by
+  have hall : ∀ e ∈ Gen.pathSplit, e.2 = ('.', 0, 1) := by decide
+  refine ⟨by decide, hall, fun e he key a b h => ?_, fun e he key h => ?_⟩
+  · rw [hall e he] at h; exact comps_of_splitFirst key a b h
+  · rw [hall e he] at h; exact comps_of_no_dot key h
+
+example : splitFirst '.' "fruit.pip.pear".toList = some ("fruit".toList, "pip.pear".toList) ∧
+    comps "fruit.pip.pear".toList = ["fruit".toList, "pip".toList, "pear".toList] := by decide
+
+/-- **src_ini_syntax.**  The marker characters, sub-string offsets, trims and the shape of the duplicate/overwrite
+    statement of `readINITree` as read from the source are those of the model's `lineStep`/`readValue`/`assignStep`:
+    a line whose first non-blank is a skip character is ignored; `[` … first `]` sets the prefix to the trimmed
+    inside plus `.`; the comment is cut before `=` is searched; key = trimmed text before `=`, value = text after it,
+    left-trimmed; either quote opens a quoted value whose lines are joined by a newline -/
+theorem src_ini_syntax :
+    Gen.iniSkipFirst = ['#'] ∧ Gen.iniHeaderOpen = '[' ∧ Gen.iniHeaderClose = ']' ∧
+    Gen.iniHeaderInnerStart = 1 ∧ Gen.iniHeaderInnerLen = -1 ∧ Gen.iniHeaderTrims = ['l', 'r'] ∧ Gen.iniPrefixSuffix = ['.'] ∧
+    Gen.iniCommentStart = '#' ∧ Gen.iniAssign = '=' ∧ Gen.iniKeyLen = 0 ∧ Gen.iniKeyTrims = ['l', 'r'] ∧
+    Gen.iniValueStart = 1 ∧ Gen.iniValueTrims = ['l'] ∧ (∀ c, isQuote c = inSet Gen.iniQuotes c) ∧
+    Gen.iniQuoteOpenDrop = 1 ∧ Gen.iniQuoteCloseLen = -1 ∧ Gen.iniQuoteLoopUntilTrimmedEndsWithQuote = true ∧
+    Gen.iniContinuationJoin = ['\n'] ∧ Gen.iniDuplicateError = "ParameterTreeParserError" ∧ Gen.iniStoreThenRemember = true ∧
+    (∀ ow c text rest st, c ∈ Gen.iniSkipFirst → lineStep ow (c :: text) rest st = .ok (st, rest)) ∧
+    (∀ ow inner junk rest st, Gen.iniHeaderClose ∉ inner →
+      lineStep ow (Gen.iniHeaderOpen :: inner ++ Gen.iniHeaderClose :: junk) rest st =
+        .ok ({ st with pfx := (let p := rtrim (ltrim inner); if p = [] then [] else p ++ Gen.iniPrefixSuffix) }, rest)) := by
+  have hq : Gen.iniQuotes = quoteList := by decide
+  refine ⟨by decide, by decide, by decide, by decide, by decide, by decide, by decide, by decide, by decide, by decide,
+    by decide, by decide, by decide, ?_, by decide, by decide, by decide, by decide, by decide, by decide, ?_, ?_⟩
+  · rw [hq]; exact isQuote_eq_inSet
+  · intro ow c text rest st hc
+    have : c = '#' := by
+      have h : Gen.iniSkipFirst = ['#'] := by decide
+      rw [h] at hc; simpa using hc
+    subst this
+    simp [lineStep, ltrim, isWs]
+  · intro ow inner junk rest st hni
+    have ho : Gen.iniHeaderOpen = '[' := by decide
+    have hc : Gen.iniHeaderClose = ']' := by decide
+    have hs : Gen.iniPrefixSuffix = ['.'] := by decide
+    rw [ho, hc, hs]
+    rw [hc] at hni
+    unfold lineStep
+    rw [List.cons_append, ltrim_cons_of_not_ws isWs_lbr]
+    simp only [show ('[' == '#') = false by decide, show ('[' == '[') = true by decide, Bool.false_eq_true, if_false, if_true]
+    rw [splitFirst_append ']' inner junk hni]
+    simp [newPrefix]
+
+example : lineStep true "[ fruit ] junk".toList [] ⟨[], [], .empty⟩ = .ok (⟨"fruit.".toList, [], .empty⟩, []) := by rfl
+
+/-- **src_options.**  `readOptions`: arguments from index 1, an option is `-` followed by at least one more
+    character, the key is the argument without its first character, the value the next argument (then skipped),
+    a missing one is the RangeError.  `readNamedOptions`: help words, the `--` prefix and its length, `=` searched
+    from a position not behind the prefix (the prefix contains none), key between prefix and `=`, value the rest; "missing" = below `required` and not given -/
+theorem src_options :
+    Gen.optFirstArg = 1 ∧ Gen.optMarkIndex = 0 ∧ Gen.optMark = '-' ∧ Gen.optNonEmptyIndex = 1 ∧ Gen.optNonEmptyNot = Char.ofNat 0 ∧
+    Gen.optKeyDrop = 1 ∧ Gen.optValueAhead = 1 ∧ Gen.optMissingAhead = 1 ∧ Gen.optMissingError = "RangeError" ∧
+    (∀ a, isOpt a = (a.head? == some Gen.optMark && decide (a.length > Gen.optNonEmptyIndex))) ∧
+    (∀ a v rest t, isOpt a = true → readOptions (a :: v :: rest) t = andThen (t.set (a.drop Gen.optKeyDrop) v) (readOptions rest)) ∧
+    Gen.namedHelpWords = ["--help".toList, "-h".toList] ∧ Gen.namedPrefix = "--".toList ∧ Gen.namedPrefixStart = 0 ∧
+    Gen.namedPrefixLen = Gen.namedPrefix.length ∧ Gen.namedAssign = '=' ∧ Gen.namedAssignFrom ≤ Gen.namedPrefix.length ∧
+    Gen.namedKeyStart = Gen.namedPrefix.length ∧ Gen.namedKeyLen = -(Gen.namedPrefix.length : Int) ∧ Gen.namedValueStart = 1 ∧
+    Gen.namedValueToEnd = true ∧ Gen.namedFirstArg = 1 ∧ Gen.namedMissingIsBelowRequiredAndNotDone = true := by
+  refine ⟨by decide, by decide, by decide, by decide, by decide, by decide, by decide, by decide, by decide, ?_, ?_,
+    by decide, by decide, by decide, by decide, by decide, by decide, by decide, by decide, by decide, by decide, by decide, by decide⟩
+  · intro a
+    have hm : Gen.optMark = '-' := by decide
+    have hi : Gen.optNonEmptyIndex = 1 := by decide
+    rw [hm, hi]
+    match a with
+    | [] => simp [isOpt]
+    | [c] => simp [isOpt]
+    | c :: d :: r => simp [isOpt]
+  · intro a v rest t ha
+    have hk : Gen.optKeyDrop = 1 := by decide
+    rw [hk]
+    simp only [readOptions, ha, if_true]
+    cases t.set (a.drop 1) v <;> rfl
+
+example : isOpt "-k".toList = true ∧ isOpt "-".toList = false ∧ isOpt "k".toList = false := by decide
+
+/-- **src_bool_words.**  `Parser<bool>` as read from the source — the word table (disjoint tests on the text
+    lower-cased in the classic locale) and the fallback "integer `int` ≠ 0" — is the model's `parseBool` -/
+theorem src_bool_words (s : Str) :
+    parseBool s = (match lookupWord Gen.boolWords (s.map toLowerC) with
+      | some b => some b
+      | none => (parseInt tInt (s.map toLowerC)).map (· != 0)) ∧
+    Gen.boolFallbackType = "int" ∧ Gen.boolLowerClassic = true := by
+  have h : Gen.boolWords = boolTable := by decide
+  rw [h]
+  exact ⟨parseBool_eq_lookup s, by decide, by decide⟩
+
+example : lookupWord Gen.boolWords "yes".toList = some true ∧ lookupWord Gen.boolWords "no".toList = some false ∧
+    lookupWord Gen.boolWords "ja".toList = none := by decide
+
+/-- **src_parser_checks.**  The trailing-text tests of `Parser<T>::parse` and `parseRange` after `s >> dummy`, as
+    Boolean functions of (`s.fail()`, `s.eof()`) read from the source: in the two states the stream can be in there —
+    the extraction of one more character failed at the end of the input (only blanks followed: `fail ∧ eof`) or it
+    delivered a character (`¬fail ∧ ¬eof`) — they accept the first and throw in the second, which is the model's
+    `skipWs rest = []`.  Both functions imbue the classic locale before the first extraction (the locale clause of
+    the property), `parseRange` extracts once per element, a bitset needs exactly `n` pieces with bit `i` = piece
+    `i`, a vector converts every piece in order, and every `get(key, default)` overload tests `hasKey(key)` and
+    converts a present value (never falls back to the default on a malformed one) -/
+theorem src_parser_checks :
+    Gen.scalarTrailThrows true true = false ∧ Gen.scalarTrailThrows false false = true ∧
+    Gen.rangeTrailThrows true true = false ∧ Gen.rangeTrailThrows false false = true ∧
+    Gen.scalarTrailClassic = true ∧ Gen.rangeTrailClassic = true ∧ Gen.rangeLoopOverAllElements = true ∧
+    Gen.bitsetSizeMustMatch = true ∧ Gen.bitsetBitIIsItemI = true ∧ Gen.vectorAllPiecesInOrder = true ∧
+    Gen.getDefaultOnlyWhenAbsent = true ∧ Gen.getStringDefaultOverloads = 2 ∧ Gen.getStringDefaultOnlyWhenAbsent = true := by
+  decide
+
+example : parseScalar (extractInt tInt) "7 ".toList = some 7 ∧ parseScalar (extractInt tInt) "7 x".toList = none := by decide
 
 end DV.C12
